@@ -16,6 +16,10 @@ Step(ev) ==
        [] ev.op = "bootstrap_counts" ->
              /\ ev.nrows = ev.b /\ ev.rowlens = <<ev.n>> /\ ev.foreign = 0
              /\ UniformWithinBand(ev.counts, ev.n, ev.b * ev.n)
+       \* long inputs (length not a power of two): index counts pooled in eight equal bins stay in the uniform band; paired shuffles
+       \* stay permutations and stay paired
+       [] ev.op = "bootstrap_long" -> ev.shape_ok = TRUE /\ ev.foreign = 0 /\ UniformWithinBand(ev.counts, 8, ev.total)
+       [] ev.op = "shuffle_two_long" -> ev.perm_ok = TRUE /\ ev.paired_ok = TRUE /\ ev.moved = TRUE
        [] ev.op = "bootstrap_slots" ->      \* every slot of every resample (the first one included) draws every position equally often
              /\ ev.bad = 0 /\ Len(ev.counts) = ev.b * ev.n
              /\ \A c \in 1..Len(ev.counts) : UniformWithinBand(ev.counts[c], ev.n, ev.calls)
